@@ -51,23 +51,68 @@ fn tick(kind: u8) -> Result<(), ExtErr> {
     })
 }
 
-/// The key material lives "elsewhere": opaque-ke only ever sees this handle.
+thread_local! {
+    /// the "device": slot number -> private key bytes.  opaque-ke never sees these bytes.
+    static DEVICE: RefCell<Vec<Vec<u8>>> = RefCell::new(Vec::new());
+}
+
+fn store(key: &[u8]) -> u32 {
+    DEVICE.with(|d| {
+        let mut d = d.borrow_mut();
+        if let Some(i) = d.iter().position(|k| k == key) {
+            return i as u32 + 1;
+        }
+        d.push(key.to_vec());
+        d.len() as u32
+    })
+}
+fn load(slot: u32) -> Option<Vec<u8>> {
+    DEVICE.with(|d| d.borrow().get(slot.wrapping_sub(1) as usize).cloned())
+}
+/// handle <-> slot: SkLen bytes, the slot number in the low-order position of either byte order
+fn handle_bytes(slot: u32, len: usize) -> Vec<u8> {
+    let mut h = vec![0u8; len];
+    h[0] = slot as u8;
+    h[len - 1] = slot as u8;
+    h[1] = 0xEE; // marks a handle: never a key
+    h
+}
+fn slot_of(h: &[u8]) -> Option<u32> {
+    if h.len() < 3 || h[1] != 0xEE || h[0] != h[h.len() - 1] || h[2..h.len() - 1].iter().any(|b| *b != 0) {
+        return None;
+    }
+    Some(h[0] as u32)
+}
+/// harness-side view: the key bytes behind a handle (for the specification's "same key" bookkeeping)
+pub fn key_behind(handle: &[u8]) -> Option<Vec<u8>> {
+    slot_of(handle).and_then(load)
+}
+/// harness-side: put a key on the device, get the handle opaque-ke will be given
+pub fn handle_for(key: &[u8]) -> Vec<u8> {
+    handle_bytes(store(key), key.len())
+}
+
+/// The key material lives "elsewhere" (DEVICE): opaque-ke only ever sees this handle, and the
+/// handle's serialization is the slot number, not the key.
 pub struct ExtKey<KG: KeGroup> {
-    inner: PrivateKey<KG>,
+    slot: u32,
     _p: PhantomData<KG>,
 }
 
 impl<KG: KeGroup> Clone for ExtKey<KG> {
     fn clone(&self) -> Self {
-        ExtKey { inner: self.inner.clone(), _p: PhantomData }
+        ExtKey { slot: self.slot, _p: PhantomData }
     }
 }
 
 impl<KG: KeGroup> ExtKey<KG> {
+    /// put key bytes on the device
     pub fn from_bytes(b: &[u8]) -> Result<Self, ()> {
-        PrivateKey::<KG>::deserialize(b)
-            .map(|inner| ExtKey { inner, _p: PhantomData })
-            .map_err(|_| ())
+        PrivateKey::<KG>::deserialize(b).map_err(|_| ())?;
+        Ok(ExtKey { slot: store(b), _p: PhantomData })
+    }
+    fn inner(&self) -> PrivateKey<KG> {
+        PrivateKey::<KG>::deserialize(&load(self.slot).expect("slot")).ok().expect("device holds valid keys")
     }
 }
 
@@ -80,34 +125,39 @@ impl<KG: KeGroup> SecretKey<KG> for ExtKey<KG> {
         pk: PublicKey<KG>,
     ) -> Result<GenericArray<u8, KG::PkLen>, InternalError<Self::Error>> {
         tick(1).map_err(InternalError::Custom)?;
-        self.inner.diffie_hellman(pk).map_err(InternalError::into_custom)
+        self.inner().diffie_hellman(pk).map_err(InternalError::into_custom)
     }
 
     fn public_key(&self) -> Result<PublicKey<KG>, InternalError<Self::Error>> {
         tick(0).map_err(InternalError::Custom)?;
-        self.inner.public_key().map_err(InternalError::into_custom)
+        self.inner().public_key().map_err(InternalError::into_custom)
     }
 
     fn serialize(&self) -> GenericArray<u8, Self::Len> {
         EXT.with(|e| e.borrow_mut().serialize += 1);
-        self.inner.serialize()
+        GenericArray::clone_from_slice(&handle_bytes(self.slot, <KG::SkLen as generic_array::typenum::Unsigned>::USIZE))
     }
 
     fn deserialize(input: &[u8]) -> Result<Self, InternalError<Self::Error>> {
         EXT.with(|e| e.borrow_mut().deserialize += 1);
-        PrivateKey::<KG>::deserialize(input)
-            .map(|inner| ExtKey { inner, _p: PhantomData })
-            .map_err(InternalError::into_custom)
+        match slot_of(input).filter(|s| load(*s).is_some()) {
+            Some(slot) if input.len() == <KG::SkLen as generic_array::typenum::Unsigned>::USIZE => Ok(ExtKey { slot, _p: PhantomData }),
+            _ => Err(InternalError::PointError),
+        }
     }
 }
 
 impl<KG: KeGroup> serde::Serialize for ExtKey<KG> {
     fn serialize<S: serde::Serializer>(&self, s: S) -> Result<S::Ok, S::Error> {
-        serde::Serialize::serialize(&self.inner, s)
+        serde::Serialize::serialize(&self.slot, s)
     }
 }
 impl<'de, KG: KeGroup> serde::Deserialize<'de> for ExtKey<KG> {
     fn deserialize<D: serde::Deserializer<'de>>(d: D) -> Result<Self, D::Error> {
-        <PrivateKey<KG> as serde::Deserialize>::deserialize(d).map(|inner| ExtKey { inner, _p: PhantomData })
+        let slot = <u32 as serde::Deserialize>::deserialize(d)?;
+        if load(slot).is_none() {
+            return Err(serde::de::Error::custom("unknown slot"));
+        }
+        Ok(ExtKey { slot, _p: PhantomData })
     }
 }
